@@ -27,7 +27,7 @@ def gen_table(rd, name: str, n_rows: Optional[int] = None, shape: Optional[int] 
     cols = [{"name": "id", "kind": "key", "values": ids}]
     cols.append({"name": "g", "kind": "group", "values": [rd.choice(GROUP_S[: rd.choice([1, 2, 3])]) for _ in range(n)]})
     if shape in (1, 3):
-        cols.append({"name": "h", "kind": "group", "values": [rd.randrange(1, 3) for _ in range(n)]})
+        cols.append({"name": "h", "kind": "igroup", "values": [rd.randrange(1, 3) for _ in range(n)]})
     null_rate = rd.choice([0.0, 0.15, 0.3])
     xv = [None if rd.random() < null_rate else rd.randrange(-8, 41) / 4.0 for _ in range(n)]
     u = rd.random()
@@ -91,7 +91,7 @@ def to_pandas(t, index: Optional[Dict[str, Any]] = None):
     for c in t["cols"]:
         k = c["kind"]
         vals = list(c["values"])
-        if k in ("key",) or (k == "group" and all(isinstance(v, int) for v in vals) and vals) or (k == "group" and c["name"] == "h"):
+        if k in ("key", "igroup"):
             data[c["name"]] = pd.Series(vals, dtype="int64")
         elif k == "int":
             if any(v is None for v in vals):
@@ -156,7 +156,7 @@ def to_polars(t, lazy: bool = False):
     for c in t["cols"]:
         k = c["kind"]
         vals = list(c["values"])
-        if k == "key" or (k == "group" and c["name"] == "h"):
+        if k in ("key", "igroup"):
             data[c["name"]] = pl.Series(c["name"], vals, dtype=pl.Int64)
         elif k == "int":
             # same physical type as the pandas frame of the same table: float when nulls are present
@@ -212,7 +212,7 @@ def gen_steps(r, cols: Dict[str, str], tables: Dict[str, Dict[str, str]], max_st
         kind = r.choice(kinds_all)
         names = sorted(cols)
         nums = [c for c in names if cols[c] in NUMERIC]
-        groups = [c for c in names if cols[c] == "group"]
+        groups = [c for c in names if cols[c] in ("group", "igroup")]
         keys = [c for c in names if cols[c] == "key"]
         strs = [c for c in names if cols[c] == "str"]
         if kind == "extend" and nums:
@@ -369,7 +369,7 @@ def gen_steps(r, cols: Dict[str, str], tables: Dict[str, Dict[str, str]], max_st
         elif kind == "project" and nums and groups and depth < 2:
             by = sorted(r.sample(groups, r.choice([1, 1, 2]) if len(groups) > 1 else 1))
             ops = {}
-            newcols = {c: "group" for c in by}
+            newcols = {c: cols[c] for c in by}
             for _ in range(r.choice([1, 2, 3])):
                 fn = r.choice(PROJECT_AGG)
                 new = _fresh({**newcols, **ops}, r.choice(["p", "q", "t"]))
@@ -390,11 +390,7 @@ def gen_steps(r, cols: Dict[str, str], tables: Dict[str, Dict[str, str]], max_st
                 expr = f"{r.choice(strs)} {r.choice(['==', '!='])} '{r.choice(['u', 'v', 'w'])}'"
             elif groups and r.random() < 0.3:
                 gcol = r.choice(groups)
-                expr = f"{gcol} {r.choice(['==', '!='])} " + ("'a'" if gcol != "h" and not gcol.startswith("h") else "1")
-                if cols.get(gcol) != "group":
-                    continue
-                if gcol in ("h",) or gcol.startswith("h"):
-                    expr = f"{gcol} {r.choice(['==', '!='])} 1"
+                expr = f"{gcol} {r.choice(['==', '!='])} " + ("1" if cols[gcol] == "igroup" else "'a'")
             elif nums:
                 expr = f"{r.choice(nums)} {r.choice(['>', '<', '>=', '<=', '==', '!='])} {r.randrange(-2, 12)}"
                 if r.random() < 0.25:
@@ -439,7 +435,7 @@ def gen_steps(r, cols: Dict[str, str], tables: Dict[str, Dict[str, str]], max_st
                 cols[new] = cols.pop(old)
         elif kind in ("order_rows", "order_limit") and names:
             order = []
-            cand = [c for c in names if cols[c] in ("key", "group", "str", "nn")]
+            cand = [c for c in names if cols[c] in ("key", "group", "igroup", "str", "nn")]
             if not cand:
                 continue
             order = r.sample(cand, r.choice([1, 1, 2]) if len(cand) > 1 else 1)
@@ -492,7 +488,7 @@ def gen_steps(r, cols: Dict[str, str], tables: Dict[str, Dict[str, str]], max_st
             rsteps, rcols = gen_steps(r, rcols0, {}, 2, depth=depth + 1,
                                       allow=["extend", "project", "select_rows", "select_columns", "rename_columns", "wextend"]) \
                 if r.random() < 0.5 else ([], dict(rcols0))
-            on_c = [c for c in names if c in rcols and cols[c] == rcols[c] and cols[c] in ("key", "group")]
+            on_c = [c for c in names if c in rcols and cols[c] == rcols[c] and cols[c] in ("key", "group", "igroup")]
             if not on_c:
                 continue
             on = sorted(r.sample(on_c, r.choice([1, 1, 2]) if len(on_c) > 1 else 1))
@@ -517,10 +513,10 @@ def gen_steps(r, cols: Dict[str, str], tables: Dict[str, Dict[str, str]], max_st
                 if c not in on:
                     if k == "key":
                         k2 = "int"
-                    if jt in ("RIGHT", "FULL") and k in ("group", "str", "nn"):
-                        k2 = {"group": "gnull", "str": "snull", "nn": "int"}[k]
+                    if jt in ("RIGHT", "FULL") and k in ("group", "igroup", "str", "nn"):
+                        k2 = {"group": "gnull", "igroup": "int", "str": "snull", "nn": "int"}[k]
                 elif k == "key" and not (rcols.get(c) == "key" and "key" in rcols.values()):
-                    k2 = "group"
+                    k2 = "igroup"
                 elif k == "key":
                     k2 = "key"  # key joined to key stays unique on INNER/LEFT/RIGHT/FULL
                 newcols[c] = k2
@@ -529,16 +525,16 @@ def gen_steps(r, cols: Dict[str, str], tables: Dict[str, Dict[str, str]], max_st
                     k2 = k
                     if k == "key":
                         k2 = "int"
-                    if jt in ("LEFT", "FULL") and k in ("group", "str", "nn"):
-                        k2 = {"group": "gnull", "str": "snull", "nn": "int"}[k]
+                    if jt in ("LEFT", "FULL") and k in ("group", "igroup", "str", "nn"):
+                        k2 = {"group": "gnull", "igroup": "int", "str": "snull", "nn": "int"}[k]
                     newcols[c] = k2
                 elif c not in on and cols[c] != k:
                     newcols[c] = "float" if "float" in (cols[c], k) else "int"
             # a key joined against a non-unique column is no longer unique
             for c in on:
                 if cols[c] == "key" and rcols.get(c) != "key":
-                    newcols[c] = "group"
-                if cols[c] == "group":
+                    newcols[c] = "igroup"
+                if cols[c] in ("group", "igroup"):
                     for c2 in list(newcols):
                         if newcols[c2] == "key":
                             newcols[c2] = "int"
